@@ -1,4 +1,5 @@
 """C14 — path / descriptor / virtual-I/O / embedded access routes."""
+import os
 from engine.bounds import Bounds
 from engine.effects import Effects
 from engine.util import assigned_lvalues
@@ -263,6 +264,43 @@ def run(ctx):
             ctx.ob('OFFSET-ACCUM', '%s#%d' % (g.name, nfo), ok, g.loc(a), '`%s` %s' % (g.s(a)[:70], 'adjusts the offset relatively' if ok else
                    'stores an absolute value: for a file embedded at offset k > 0 every later psf_ftell / psf_fseek is off by k'), None)
     ctx.require(nfo >= 1, 'no adjustment of psf->fileoffset outside the open functions found')
+
+    ctx.rule('OFFSET-RELATIVE', 'the container parsers work in positions relative to the embedded file (psf_ftell / psf_fseek / psf_get_filelen already take psf->fileoffset out, and the readers trim '
+             'psf->filelength to the embedded length): outside file_io.c, the open functions of sndfile.c and the ID3 / MPEG code that moves the offset itself, psf->fileoffset is only tested '
+             '(compared with a constant, or used as a truth value), logged or reported - never an operand of position arithmetic, where it would be counted a second time on the embedded route only',
+             floor=5)
+    n_or = 0
+    for g in sorted(prog.lib_fns(), key=lambda g: (g.file, g.line)):
+        base = os.path.basename(g.file)
+        if base in ('file_io.c', 'sndfile.c', 'id3.c', 'mpeg_decode.c', 'test_file_io.c'):
+            continue
+        for x in g.walk():
+            if x['k'] != 'MemberExpr' or x.get('n') != 'fileoffset':
+                continue
+            n_or += 1
+            ok, how = False, 'operand of arithmetic'
+            prev = x
+            for a in g.ancestors(x):
+                k = a['k']
+                if k in ('ImplicitCastExpr', 'CStyleCastExpr', 'ParenExpr'):
+                    prev = a
+                    continue
+                if k == 'BinaryOperator' and a.get('op') in ('>', '<', '>=', '<=', '==', '!='):
+                    other = [g.unwrap(c) for c in g.kids(a) if not g.within(x, c)]
+                    ok = bool(other) and all(o['k'] == 'IntegerLiteral' for o in other)
+                    how = 'compared with a constant' if ok else 'compared with a computed position'
+                elif k == 'BinaryOperator' and a.get('op') in ('&&', '||'):
+                    ok, how = True, 'truth value'
+                elif k == 'UnaryOperator' and a.get('op') == '!':
+                    ok, how = True, 'truth value'
+                elif k in ('IfStmt', 'ConditionalOperator', 'WhileStmt') and g.kids(a) and g.kids(a)[0]['id'] == prev['id']:
+                    ok, how = True, 'truth value'
+                elif k == 'CallExpr' and a.get('callee') == 'psf_log_printf':
+                    ok, how = True, 'logged'
+                break
+            ctx.ob('OFFSET-RELATIVE', '%s#%d' % (g.name, n_or), ok, g.loc(x), 'psf->fileoffset %s in `%s`%s' % (how, g.s(a)[:90], '' if ok else
+                   ': positions and psf->filelength are already relative to the embedded file, so the embedding offset is counted twice (embedded route differs from the path route)'), None)
+    ctx.require(n_or >= 5, 'fewer than 5 uses of psf->fileoffset in the container parsers')
 
 
     ctx.rule('MARKER-ARM', 'in the header readers, an if / else on the file\'s leading marker (RIFF vs RIFX, .snd vs dns., the MAT4 / PAF byte-order markers) treats both byte orders alike: the two arms '
